@@ -57,6 +57,22 @@ CLAIMED["C06"] = dict(
          "or mutated globals). Swaps are driven through DspRuntime::try_hot_swap single-threaded, not through the audio thread.",
     technique="TLA+ runtime model checked with TLC; TLC-generated histories replayed on VM and WASM; lock-step trace validation",
 )
+CLAIMED["C05"] = dict(
+    category="model_checking",
+    text="StateCursor.tla transcribes mirgen's state-offset bookkeeping (pending offset, push_sum, branch arms, self cell) and "
+         "the run-time cursor protocol; TLC enumerates every function shape up to a bound and every branch path and checks "
+         "that each access lands on a leaf of the published layout with its kind and size and that the cursor returns to the "
+         "origin. For every shape of a smaller bound the predicted layout and the predicted state-event list of every path "
+         "are replayed: the shape is turned into a program, run on VM and WASM with the state hooks on, and the real layout "
+         "and the real event list of every sample must be the predicted ones. Recorded runs of generated, random and shipped "
+         "programs are validated by LayoutTrace.tla against the published layout; VM and WASM state words are compared by "
+         "Lockstep.tla after every sample.",
+    design_ref="DESIGN.md §6 C05",
+    note="Hooks (cfg mimium_verif) record every GetState/SetState/Mem/Delay/Push/PopStateOffset of both runtimes. Only dsp's "
+         "own storage is compared with a layout; per-closure storages are observed but not checked. Decision-tree (tuple) "
+         "match is not modelled.",
+    technique="TLA+ transcription of the compiler's bookkeeping model-checked with TLC; predicted event lists replayed on instrumented runtimes; trace validation",
+)
 NOT_YET = {}
 
 checks = []
